@@ -116,11 +116,12 @@ def brightest_pixel(img, threshold, **kwargs):
         img = img - pxlValue
         img = img.clip(0, img.max())
 
-    elif len(img.shape)==3:
+    else:
+        # one level per frame, whatever the number of leading (stack) axes
         pxlValues = numpy.sort(
-                        img.reshape(img.shape[0], img.shape[-1]*img.shape[-2])
-                        )[:,-nPxls]
-        img = (img.T - pxlValues).T
+                        img.reshape(img.shape[:-2] + (img.shape[-1]*img.shape[-2],))
+                        )[...,-nPxls]
+        img = img - pxlValues[..., None, None]
         img = img.clip(0, img.max())
 
     return centre_of_gravity(img)
